@@ -407,14 +407,14 @@ pub fn c21(m: &mut Mon, w: &mut World, idx: usize) {
             m.report(w, Some(idx), "C21", "reject-not-clean", d);
             return;
         }
-        m.nontrivial.insert(hash64(&format!("rej{v}")));
+        m.nontrivial.insert(hash64(&format!("rej{v}|{}|{}", peer, w.runs[idx].prev.len())));
     } else {
         if is_ver_err {
             let d = format!("peer {peer} eid {eid}: current data stamped {v} (>= minimum {min}) was rejected for its version: {}", r.out.msg);
             m.report(w, Some(idx), "C21", "supported-version-rejected", d);
             return;
         }
-        m.nontrivial.insert(hash64(&format!("acc{v}")));
+        m.nontrivial.insert(hash64(&format!("acc{v}|{}|{}", peer, w.runs[idx].prev.len())));
     }
 }
 
@@ -460,7 +460,7 @@ fn check_limits_case(m: &mut Mon, w: &mut World, idx: usize, lim: &Limits, real:
             m.report(w, Some(idx), "C22", "hard-reject-not-clean", format!("{ctx}: rejection did not return the previous data untouched"));
             return false;
         }
-        m.nontrivial.insert(hash64(&format!("hard{kind:?}{air_over}{part_over}{cr_over}")));
+        m.nontrivial.insert(hash64(&format!("hard{kind:?}{air_over}{part_over}{cr_over}|{:?}|{}|{}", lim, script.len(), cur.len())));
         return true;
     }
     // soft mode, or hard mode with nothing exceeded: exact flags, otherwise identical to the unlimited twin
@@ -479,7 +479,7 @@ fn check_limits_case(m: &mut Mon, w: &mut World, idx: usize, lim: &Limits, real:
         m.report(w, Some(idx), "C22", "soft-mode-changed-behaviour", format!("{ctx}: outcome differs from the unlimited run: code {} vs {}", o.code, twin.code));
         return false;
     }
-    m.nontrivial.insert(hash64(&format!("soft{:?}{}", expect_flags, lim.hard)));
+    m.nontrivial.insert(hash64(&format!("soft{:?}{}|{:?}|{}|{}", expect_flags, lim.hard, lim, script.len(), cur.len())));
     true
 }
 pub fn c22(m: &mut Mon, w: &mut World, idx: usize) {
